@@ -131,6 +131,20 @@ def check(run):
         stream_cases.append(([c for c, _ in picks], sched, merged))
     recv_in = [{"op": "recv", "packets": [p.hex() for p in merged]} for _, _, merged in stream_cases]
 
+    # ---- phase 2b: a message abandoned after its init packet and k continuation packets, then a complete new message on
+    # the SAME channel (the receiver drops the unfinished one): the new message must be delivered, once, on its last packet
+    multi = [(c, o) for c, o in accepted if len(bytes.fromhex(o["wire"])) // 64 >= 2]
+    reuse_cases = []
+    for _ in range(40 if run.tier == "quick" else 400):
+        if len(multi) < 2: break
+        (ca, oa), (cb, ob) = rng.sample(multi, 2)
+        pa, pb = packets_of(oa), packets_of(ob)
+        ch = ca["ch"].to_bytes(4, "little")
+        pb = [ch + p[4:] for p in pb]                       # same channel as the abandoned message
+        k = rng.randrange(0, len(pa))                       # init + k-1 continuations of A were seen (k = 0: nothing)
+        reuse_cases.append((dict(cb, ch=ca["ch"]), pa[:k], pb))
+    reuse_in = [{"op": "recv", "packets": [p.hex() for p in pre + pb]} for _, pre, pb in reuse_cases]
+
     # ---- phase 3: arbitrary / malformed packet sequences (model correspondence on error paths)
     mal = corpus("recv")
     for _ in range(300 if run.tier == "quick" else 3000):
@@ -150,7 +164,8 @@ def check(run):
                 p[5:7] = bc.to_bytes(2, "big")
             seq.append(bytes(p))
         mal.append({"op": "recv", "packets": [p.hex() for p in seq]})
-    recv_out = common.harness_run(binary, recv_in + mal)
+    recv_out_all = common.harness_run(binary, recv_in + mal + reuse_in)
+    recv_out, reuse_out = recv_out_all[:len(recv_in) + len(mal)], recv_out_all[len(recv_in) + len(mal):]
 
     def outs_term(o):
         if "outs" not in o:
@@ -171,6 +186,23 @@ def check(run):
         terms.append("CRecv [%s] %s" % ("; ".join(blit(bytes.fromhex(p)) for p in c["packets"]), ot))
         all_cases.append(("recv", c, o))
 
+    reuse_fail = []
+    for (m, pre, pb), c, o in zip(reuse_cases, reuse_in, reuse_out):
+        ot = outs_term(o)
+        if ot is None:
+            crashed.append((c, o)); continue
+        outs = o["outs"]
+        want = [None] * (len(pre) + len(pb) - 1) + [{"ch": m["ch"], "cmd": m["cmd"], "payload": m["payload"]}]
+        # a complete single-packet prefix message may itself be delivered: only the new message's packets are judged
+        got = outs[len(pre):]
+        if got != want[len(pre):]:
+            reuse_fail.append((dict(c, note="a new message on a channel whose previous message was abandoned after %d packet(s) is not delivered "
+                                            "exactly once on its last packet" % len(pre)), o))
+        terms.append("CRecv [%s] %s" % ("; ".join(blit(bytes.fromhex(p)) for p in c["packets"]), ot))
+        all_cases.append(("recv", c, o))
+    for c, o in reuse_fail[:2]:
+        run.violation({"kind": "receiver: " + c["note"], "case": c, "observed": o})
+
     res = common.coq_eval(PROP, PREAMBLE, terms, ["agree", "oracle"], shard=120)
 
     # ---- verdict
@@ -180,7 +212,7 @@ def check(run):
         kind, c, o = all_cases[i]
         run.violation({"kind": "property oracle false on the implementation's observation (%s)" % kind,
                        "case": c, "observed": o})
-    if not res["oracle"] and not crashed:
+    if not res["oracle"] and not crashed and not reuse_fail:
         for i in res["agree"][:1]:
             kind, c, o = all_cases[i]
             run.violation({"kind": "model and implementation disagree (%s); oracle true on all %d cases of this run" % (kind, len(terms)),
@@ -212,7 +244,7 @@ def check(run):
         "samples": [terms[0][:300], terms[len(send_cases)][:300] if len(terms) > len(send_cases) else "", terms[-1][:300]],
         "model_disagreements": len(res["agree"]), "oracle_failures": len(res["oracle"]), "crashes": len(crashed),
         "send_cases": len(send_cases), "stream_cases": len(stream_cases), "malformed_sequences": len(mal),
-        "exhaustive_interleavings": n_exh,
+        "exhaustive_interleavings": n_exh, "abandoned_then_new_message_cases": len(reuse_cases), "abandoned_then_new_failures": len(reuse_fail),
     })
     run.assumptions += ["Write::write accepts whole 64-byte packets (Vec, HID report)", "channel bytes are native-endian; check platform is little-endian"]
 
